@@ -33,13 +33,17 @@ def relations(A, want_views=True):
     """returns dict name -> real matrix (or exception string)"""
     out = {}
 
-    def grab(name, fn, shp, dt):
+    # only for maps between a real and a complex space (the Re<.,.> clause); elsewhere values are taken as returned
+    mixed = L.is_complex(A.input_dtype) != L.is_complex(A.output_dtype)
+    rin, rout = mixed and not L.is_complex(A.input_dtype), mixed and not L.is_complex(A.output_dtype)
+
+    def grab(name, fn, shp, dt, real_target=False):
         try:
-            out[name] = L.realify(fn, shp, dt)[0]
+            out[name] = L.realify(fn, shp, dt, real_target)[0]
         except Exception as e:  # applying must never fail for a conforming input
             out[name] = f"exception {type(e).__name__}: {str(e)[:120]}"
-    grab("A", A, A.input_shape, A.input_dtype)
-    grab("adj", A.adj, A.output_shape, A.output_dtype)
+    grab("A", A, A.input_shape, A.input_dtype, rout)
+    grab("adj", A.adj, A.output_shape, A.output_dtype, rin)
     if want_views:
         for nm, mk in (("H", lambda: A.H), ("T", lambda: A.T), ("conj", lambda: A.conj())):
             try:
@@ -47,11 +51,13 @@ def relations(A, want_views=True):
             except Exception as e:
                 out[nm] = f"exception {type(e).__name__}: {str(e)[:120]}"
                 continue
-            grab(nm, V, V.input_shape, V.input_dtype)
-            grab(nm + ".adj", V.adj, V.output_shape, V.output_dtype)
+            # H and T map A's output space into its input space, conj() maps like A; their adjoints the other way
+            back = nm in ("H", "T")
+            grab(nm, V, V.input_shape, V.input_dtype, rin if back else rout)
+            grab(nm + ".adj", V.adj, V.output_shape, V.output_dtype, rout if back else rin)
         try:
             G = A.gram_op
-            grab("gram", G, G.input_shape, G.input_dtype)
+            grab("gram", G, G.input_shape, G.input_dtype, rin)
         except Exception as e:
             out["gram"] = f"exception {type(e).__name__}: {str(e)[:120]}"
     return out
@@ -147,8 +153,8 @@ def run(ctx: Ctx):
         per = {}
         sel = []
         for i, e in enumerate(cat):
-            per[e.cls] = per.get(e.cls, 0) + 1
-            if per[e.cls] <= 10:
+            per[e.group] = per.get(e.group, 0) + 1
+            if per[e.group] <= 10:
                 sel.append((i, e))
     else:
         sel = list(enumerate(cat))
@@ -164,8 +170,8 @@ def run(ctx: Ctx):
             continue
         # quick tier: the derived views (H, T, conj, their adjoints, gram_op) of the first
         # configurations of each class only; adj for every selected configuration
-        nview[e.cls] = nview.get(e.cls, 0) + 1
-        mats = relations(A, want_views=(not ctx.quick) or nview[e.cls] <= 4)
+        nview[e.group] = nview.get(e.group, 0) + 1
+        mats = relations(A, want_views=(not ctx.quick) or nview[e.group] <= 4)
         items.append((key, A, mats, tol_for(e, A)))
         ctx.count(e.cls, key)
     n1, _ = check_entries(ctx, items, lambda k: k["class"], "C01_cat")
@@ -189,6 +195,28 @@ def run(ctx: Ctx):
         mats = relations(A, want_views=False)
         items.append((key, A, mats, 2.0 ** -30))
         ctx.count("tree", key)
+    # every algebra-specialised class x (c * A, A * c, A / c) with a non-real scalar: the class-specific scalar
+    # shortcuts carry their own adjoint closures (conjugated scalar)
+    for dt in (np.complex128, np.float64):
+        for n in (3,):
+            tseed = ctx.rng.getrandbits(32)
+            pool = L.leaf_pool(random.Random(tseed), n, dt)
+            for name in sorted(pool):
+                for op in ("scale", "rscale", "div"):
+                    cs = ["(1+2j)", "-0.5j"] if L.is_complex(dt) else ["-0.5"]
+                    if op == "div":
+                        cs = ["2j", "(1+1j)"] if L.is_complex(dt) else ["4.0"]
+                    c = ctx.rng.choice(cs) if ctx.quick else None
+                    for cc in ([c] if c else cs):
+                        desc = [op, cc, ["leaf", name]]
+                        key = {"tree": desc, "n": n, "dtype": np.dtype(dt).name, "tseed": tseed}
+                        try:
+                            A = rebuild_tree(desc, pool)
+                        except Exception:
+                            ctx.count("tree-rejected", key, nontrivial=False)
+                            continue
+                        items.append((key, A, relations(A, want_views=False), 2.0 ** -30))
+                        ctx.count("scalar:" + op, key)
     n2, _ = check_entries(ctx, items, lambda k: "expression:" + root_of(k["tree"]), "C01_tree")
     ctx.traces = n1 + n2
 
